@@ -67,6 +67,8 @@ RKIND = {
               vs=[(2, (0, 1))], cin=0, cout=1),
     # a massless bonded dummy atom of a massive type next to an atom without mass column
     "Q": dict(atoms=[("Q1", "C1", None), ("Q2", "P4", 0.0)], bonds=[(0, 1, 0.25)], vs=[], cin=0, cout=0),
+    # a second one-bead solvent (smaller bead)
+    "T": dict(atoms=[("N", "SC", None)], bonds=[], vs=[], cin=0, cout=0),
 }
 
 
@@ -107,6 +109,17 @@ for _n in range(3, 9):
     TYPES[f"RG{_n}"] = ring_type(f"RG{_n}", _n)
 for _n in range(5, 11):
     TYPES[f"CH{_n}"] = chain_type(f"CH{_n}", [("RA", "S")] * _n)
+
+# molecule types whose residues ALL carry different names: -res <names> then expresses every subset of the residues of a
+# molecule as 'named for rebuilding' (the coordinate files themselves are positional: a prefix of the residues not named)
+TYPES["N"] = chain_type("N", [("N", "T")])
+_L5 = [("LA", "S"), ("LB", "D"), ("LC", "S"), ("LD", "V"), ("LE", "S")]
+for _n in range(2, 6):
+    TYPES[f"L{_n}"] = chain_type(f"L{_n}", _L5[:_n])
+TYPES["B5"] = dict(chain_type("B5", [("BA", "S"), ("BB", "S"), ("BC", "D"), ("BD", "S"), ("BE", "S")]), edges=[[0, 1], [1, 2], [1, 3], [3, 4]])
+TYPES["Y4"] = dict(chain_type("Y4", [("YA", "S"), ("YB", "S"), ("YC", "D"), ("YD", "S")]), edges=[[0, 1], [0, 2], [0, 3]])
+TYPES["G5"] = dict(chain_type("G5", [("GA", "S"), ("GB", "S"), ("GC", "S"), ("GD", "S"), ("GE", "S")]), edges=[[0, 1], [1, 2], [2, 3], [3, 4], [4, 0]])
+TYPES["G4"] = dict(chain_type("G4", [("GA", "S"), ("GB", "D"), ("GC", "S"), ("GD", "S")]), edges=[[0, 1], [1, 2], [2, 3], [3, 0]])
 
 
 def type_atoms(t):
@@ -538,6 +551,53 @@ def check_supplied(mols, plan, mode, centres, atoms, rows, probe, ignored=()):
     return bad[:6]
 
 
+def check_three_way(mols, plan, centres, atoms, rows, probe):
+    """C04 with -c AND -mc (both files are positional prefixes of the residues not named with -res): per residue
+    'given' = atoms in the -c file only, 'centre' = centre in the -mc file only, 'both' = atoms in -c and a centre in -mc,
+    'gen' = in neither.  From the statement: atoms whose coordinates are given keep exactly those coordinates ('given' and
+    'both': the clause on centres speaks of residues given ONLY as centres); 'centre' residues are backmapped around exactly
+    the centre; only 'gen' residues are generated."""
+    bad = []
+    idx = 0
+    # input classes of their own (both files are prefixes, so an 'atoms only' residue always lies past the end of the -mc file)
+    K_BOTH, K_PAST = "c04-c-and-mc-atoms-rebuilt-around-mc-centre", "c04-c-and-mc-atoms-past-end-of-mc-file-regenerated"
+    for mi, mol in enumerate(mols):
+        for ri, blk in enumerate(mol["blocks"]):
+            got_gro = [np.array(rows[idx + ai][4]) for ai in blk]
+            got_mem = [probe.atoms[mi][ai] for ai in blk] if probe.atoms is not None else None
+            tag = f"molecule {mi} ({mol['type']}) residue {ri+1}{mol['res'][ri][0]}"
+            what = plan[mi][ri]
+            if what in ("given", "both"):
+                for k in range(len(blk)):
+                    if not np.array_equal(got_gro[k], atoms[mi][ri][k]):
+                        bad.append((K_PAST if what == "given" else K_BOTH, f"{tag}: atom {mol['atoms'][blk[k]][2]} supplied in the -c file "
+                                    + ("(the -mc file ends before this residue)" if what == "given" else "(the centre of its residue is also in the -mc file)") + " not preserved",
+                                    f"supplied {atoms[mi][ri][k].tolist()} output {got_gro[k].tolist()}"))
+                        break
+            elif what == "centre":
+                c = centres[mi][ri]
+                cg = np.mean(got_gro, axis=0)
+                if not np.all(np.abs(cg - c) <= 6e-4):
+                    bad.append(("c04-centre-not-kept", f"{tag}: centre of the written atoms is not the supplied centre", f"supplied {c.tolist()} written centre {cg.tolist()}"))
+                elif got_mem is not None and not np.all(np.abs(np.mean(got_mem, axis=0) - c) <= EPS):
+                    bad.append(("c04-centre-not-kept", f"{tag}: centre of geometry of the backmapped atoms is not the supplied centre (1e-6)",
+                                f"supplied {c.tolist()} centre {np.mean(got_mem, axis=0).tolist()}"))
+            was_generated = (mi, ri) in probe.placed
+            if what != "gen" and was_generated:
+                bad.append((K_PAST if what == "given" else "c04-supplied-regenerated", f"{tag}: supplied ({what}), but a position was generated for it", ""))
+            if what == "gen" and not was_generated:
+                bad.append(("c04-missing-not-generated", f"{tag}: in neither file, but no position was generated", ""))
+            if what != "gen" and probe.build is not None:
+                # the residue position the others are built around: the centre of the supplied atoms, or the supplied centre
+                wants = [np.mean(atoms[mi][ri], axis=0)] if what == "given" else [centres[mi][ri]] if what == "centre" else [np.mean(atoms[mi][ri], axis=0), centres[mi][ri]]
+                got = probe.build["mols"][mi]["nodes"][ri]["pos"]
+                if got is None or not any(np.all(np.abs(got - wnt) <= EPS) for wnt in wants):
+                    bad.append((K_PAST if what == "given" else "c04-supplied-residue-moved", f"{tag}: residue position after building differs from the supplied one",
+                                f"supplied {[np.asarray(x).tolist() for x in wants]} after build {None if got is None else got.tolist()}"))
+        idx += len(mol["atoms"])
+    return bad[:6]
+
+
 def expected_grid_ok(p, grid_rows, spacing, box):
     if grid_rows is not None:
         return bool(np.any(np.all(np.abs(grid_rows - p) <= 1e-12, axis=1)))
@@ -747,10 +807,14 @@ def _eval_world(w, d):
             plan = split_plan(mols, skip, k)
             p = write_coords(d, mols, plan, mode, struct_box, centres, atoms, "in.gro")
             over["coordpath" if mode == "c" else "coordpath_meta"] = p
-        else:   # both files, same residues: structural checks only
+        else:   # both files (C03: same residues, structural checks only; C04 thorough: prefixes k of -c and kmc of -mc)
             plan = split_plan(mols, skip, k)
+            plan_mc = split_plan(mols, skip, co["kmc"]) if "kmc" in co else plan
             over["coordpath"] = write_coords(d, mols, plan, "c", struct_box, centres, atoms, "in.gro")
-            over["coordpath_meta"] = write_coords(d, mols, plan, "mc", struct_box, centres, atoms, "in_meta.gro")
+            over["coordpath_meta"] = write_coords(d, mols, plan_mc, "mc", struct_box, centres, atoms, "in_meta.gro")
+            if "kmc" in co:
+                plan = [[{(True, True): "both", (True, False): "given", (False, True): "centre", (False, False): "gen"}[(a == "given", b == "given")]
+                         for a, b in zip(pa, pb)] for pa, pb in zip(plan, plan_mc)]
         if skip:
             over["build_res"] = skip
     if w.get("ign"):
@@ -790,6 +854,11 @@ def _eval_world(w, d):
             key = "unbonded-virtual-site-refused"
         elif w.get("ign") and detail.startswith("KeyError"):
             key = "F2-ignore-indexing"
+        elif w.get("ign") and {t for t, _ in mollist} <= set(w["ign"]):
+            # every molecule is ignored: nothing is left to build and gen_coords refuses the input (ValueError from an empty interaction
+            # table).  C04 speaks about the OTHER molecules of an accepted run; a refused run writes nothing and moves nothing, so this
+            # world is outside the statement's quantifier: not evaluated (counted trivial), never a violation.
+            return {"status": status, "bad": [], "nontrivial": False, "info": info}
         elif w.get("ign"):
             key = "ignore-error"
         bad.append((key, f"gen_coords raised {detail}", ""))
@@ -811,7 +880,12 @@ def _eval_world(w, d):
         return {"status": status, "bad": bad, "nontrivial": nontrivial, "info": info}
     n_given = sum(p.count("given") for p in plan)
     n_gen = sum(p.count("gen") for p in plan)
-    if unit == "c04":
+    if unit == "c04" and co and "kmc" in co:
+        bad += check_three_way(mols, plan, centres, atoms, rows, probe)
+        kinds = {x for p in plan for x in p}
+        nontrivial = len(kinds) >= 2 and kinds != {"both", "given"}
+        info["partial_chain"] = any(len(set(p)) > 1 for p in plan)
+    elif unit == "c04":
         bad += check_supplied(mols, plan, mode if mode in ("c", "mc") else None, centres, atoms, rows, probe, ignored=w.get("ign", ()))
         nontrivial = n_given > 0 and n_gen > 0
         if w.get("schedule"):
@@ -853,6 +927,8 @@ def cli_line(w):
     co = w.get("coords")
     if co:
         s += {"c": " -c in.gro", "mc": " -mc in.gro", "c+mc": " -c in.gro -mc in_meta.gro"}[co["mode"]] + f" (first {co['k']} non-skipped residues, box {co['box']})"
+        if "kmc" in co:
+            s += f" (in_meta.gro: first {co['kmc']} non-skipped residues)"
     for opt, key in (("-res", "res"), ("-ign", "ign"), ("-start", "start"), ("-cycles", "cycles")):
         if w.get(key):
             s += f" {opt} " + " ".join(w[key])
@@ -1029,6 +1105,163 @@ def res_subsets(mollist, maxn=2):
     return out
 
 
+def _type_names(tn):
+    return list(dict.fromkeys(rn for rn, _ in TYPES[tn]["res"]))
+
+
+def _subsets(items):
+    items = list(items)
+    for n in range(len(items) + 1):
+        for c in itertools.combinations(items, n):
+            yield list(c)
+
+
+# ---- thorough tier only: the deeper families (the quick tier does not reach this code)
+C04_DEEP_ONE = [[["L2", 2]], [["L3", 2]], [["L4", 1]], [["L4", 2]], [["L5", 1]], [["L5", 2]], [["B5", 1]], [["B5", 2]], [["Y4", 1]], [["Y4", 2]],
+                [["G5", 1]], [["G5", 2]], [["G4", 2]], [["MX", 1]]]
+C04_DEEP_MULTI = [[["B5", 1], ["W", 2]], [["W", 1], ["G5", 1], ["N", 2]], [["N", 1], ["L4", 1], ["W", 1], ["B5", 1]], [["L3", 1], ["N", 2], ["Y4", 1], ["G4", 1]],
+                  [["W", 2], ["L5", 1], ["N", 1]], [["PD", 1], ["Y4", 1], ["W", 1], ["PV", 1]], [["G4", 1], ["W", 1], ["L2", 2], ["N", 1]]]
+C04_DEEP_BOTH = [[["L5", 1]], [["L4", 2]], [["B5", 1], ["W", 2]], [["W", 1], ["G5", 1], ["N", 1]], [["PD", 2]], [["N", 1], ["L3", 1], ["Y4", 1]], [["G4", 1], ["PV", 1]]]
+C04_DEEP_IGN = [("W", "PA", "PD"), ("W", "N", "PA"), ("N", "B5", "W"), ("G5", "W", "PV"), ("Y4", "N", "L3"), ("N", "B5", "PD", "W"), ("W", "L4", "G4", "N")]
+C04_DEEP_IGN_REPEATED = [([["W", 1], ["PA", 1], ["W", 2]], ["W"]), ([["PA", 1], ["W", 1], ["PA", 1]], ["PA"]), ([["PA", 1], ["W", 1], ["PA", 1]], ["W"]),
+                         ([["N", 1], ["B5", 1], ["N", 1], ["W", 1], ["B5", 1]], ["N"]), ([["N", 1], ["B5", 1], ["N", 1], ["W", 1], ["B5", 1]], ["B5"]),
+                         ([["N", 1], ["B5", 1], ["N", 1], ["W", 1], ["B5", 1]], ["N", "W"]), ([["L3", 1], ["W", 2], ["L3", 1], ["W", 1]], ["W"]),
+                         ([["L3", 1], ["W", 2], ["L3", 1], ["W", 1]], ["L3"])]
+SOLVENTS = ("W", "N")
+
+
+def c04_split_worlds(ml, seeds, focus_all, offset=0):
+    """every residue-name set for -res that is (every subset of the names of ONE molecule type) x (for each other type: none / all of
+    its names), x {-c, -mc} x every prefix length k >= 1 of the residues not named"""
+    types = list(dict.fromkeys(t for t, _ in ml))
+    mols = expand(ml)
+    skips = []
+    for focus in types:
+        others = [t for t in types if t != focus]
+        for sub in (_subsets(_type_names(focus)) if focus_all or len(_type_names(focus)) > 1 else [[]]):
+            for pick in _subsets(others):
+                sk = sorted(set(sub) | {n for t in pick for n in _type_names(t)})
+                if sk not in skips:
+                    skips.append(sk)
+    out = []
+    for si, skip in enumerate(skips):
+        ncov = n_coverable(mols, skip)
+        for mode in ("c", "mc"):
+            for k in range(1, ncov + 1):
+                for j, s in enumerate(seeds):
+                    out.append(dict(unit="c04", molecules=ml, seed=s + (si + k + offset) % 7 * 100, res=skip, coords={"mode": mode, "k": k, "box": C04_BOX}))
+    return out
+
+
+def c04_both_worlds(ml, seeds):
+    """-c AND -mc: every pair of prefix lengths (k of in.gro, kmc of in_meta.gro), every set of <= 1 residue names for -res (all subsets for one-type systems)"""
+    mols = expand(ml)
+    names = list(dict.fromkeys(n for t, _ in ml for n in _type_names(t)))
+    skips = list(_subsets(names)) if len(ml) == 1 and ml[0][1] == 1 else [[]] + [[n] for n in names]
+    out = []
+    for skip in skips:
+        ncov = n_coverable(mols, skip)
+        for k in range(1, ncov + 1):
+            for kmc in range(1, ncov + 1):
+                for s in seeds:
+                    out.append(dict(unit="c04", molecules=ml, seed=s, res=skip, coords={"mode": "c+mc", "k": k, "kmc": kmc, "box": C04_BOX}))
+    return out
+
+
+def c04_ign_worlds(ml, ign, seeds, modes=("c", "mc"), extra=None):
+    """-ign <ign>: the ignored molecules are supplied completely (the files are positional, so every residue before the last ignored
+    molecule is supplied too or named with -res); every set of the other molecule types named for rebuilding, every prefix length
+    from 'through the last ignored molecule' to 'everything not named'"""
+    mols = expand(ml)
+    free = [t for t in dict.fromkeys(t for t, _ in ml) if t not in ign]
+    out = []
+    for gi, pick in enumerate(_subsets(free)):
+        skip = sorted({n for t in pick for n in _type_names(t)})
+        seq = [mol["type"] for mol in mols for (rn, _) in mol["res"] if rn not in skip]
+        kmin = max(i for i, t in enumerate(seq) if t in ign) + 1
+        for k in range(kmin, len(seq) + 1):
+            for mode in modes:
+                for s in seeds:
+                    out.append(dict(extra or {}, unit="c04", molecules=ml, seed=s + (gi + k) % 5 * 100, ign=list(ign), res=skip, coords={"mode": mode, "k": k, "box": C04_BOX}))
+    return out
+
+
+def c04_schedules(L2, L3, streak, period_len):
+    """failure schedules over the placement events 0, 1, 2, ...: nothing fails; every set of <= 2 events among the first L2; every set of
+    3 among the first L3; the first n events all fail (n <= streak); every p-th event fails (p = 2, 3, 4; phase 0..p-1) up to period_len"""
+    sc = [()] + [(i,) for i in range(L2)] + list(itertools.combinations(range(L2), 2)) + list(itertools.combinations(range(L3), 3))
+    sc += [tuple(range(n)) for n in range(4, streak + 1)]
+    for p in (2, 3, 4):
+        for ph in range(p):
+            sc.append(tuple(range(ph, period_len, p)))
+    return list(dict.fromkeys(sc))
+
+
+def c04_deep_worlds(ctx, seeds):
+    count = {}
+    worlds = []
+    for ml in C04_DEEP_ONE:
+        ws = c04_split_worlds(ml, seeds[:4], True)
+        count["split-one"] = count.get("split-one", 0) + len(ws)
+        worlds += ws
+    for i, ml in enumerate(C04_DEEP_MULTI):
+        ws = c04_split_worlds(ml, seeds[i % 4:i % 4 + 1], False, offset=i)
+        count["split-multi"] = count.get("split-multi", 0) + len(ws)
+        worlds += ws
+    for ml in C04_DEEP_BOTH:
+        ws = c04_both_worlds(ml, seeds[:2])
+        count["both"] = count.get("both", 0) + len(ws)
+        worlds += ws
+    n_lists = 0
+    for base in C04_DEEP_IGN:
+        cnts = {t: (2 if t in SOLVENTS else 1) for t in base}
+        for oi, order in enumerate(itertools.permutations(base)):
+            ml = [[t, cnts[t]] for t in order]
+            n_lists += 1
+            for ii, ign in enumerate(list(_subsets(base))[1:]):
+                modes = ("c", "mc") if len(base) == 3 else (("c", "mc")[(oi + ii) % 2],)
+                ws = c04_ign_worlds(ml, ign, seeds[(oi + ii) % 3:(oi + ii) % 3 + (2 if len(base) == 3 else 1)], modes)
+                count["ign"] = count.get("ign", 0) + len(ws)
+                worlds += ws
+    for ml, ign in C04_DEEP_IGN_REPEATED:
+        n_lists += 1
+        ws = c04_ign_worlds(ml, ign, seeds[:3])
+        count["ign"] = count.get("ign", 0) + len(ws)
+        worlds += ws
+    count["ign-lists"] = n_lists
+    # ---- scripted failures
+    sched_systems = [
+        dict(molecules=[["C8", 1]], coords={"mode": "c", "k": 2, "box": C04_BOX}, nrewind=2),
+        dict(molecules=[["C8", 1]], coords={"mode": "mc", "k": 3, "box": C04_BOX}, nrewind=5),
+        dict(molecules=[["C8", 2]], coords={"mode": "c", "k": 9, "box": C04_BOX}, nrewind=3),
+        dict(molecules=[["CH10", 1]], coords={"mode": "c", "k": 1, "box": C04_BOX}, nrewind=4),
+        dict(molecules=[["PA", 2]], coords={"mode": "c", "k": 5, "box": C04_BOX}, nrewind=5),
+        dict(molecules=[["PA", 1], ["W", 2]], coords={"mode": "c", "k": 2, "box": C04_BOX}, nrewind=1),
+        dict(molecules=[["W", 2], ["PA", 1], ["N", 2]], coords={"mode": "mc", "k": 4, "box": C04_BOX}, nrewind=2),
+        dict(molecules=[["PD", 2]], coords={"mode": "mc", "k": 1, "box": C04_BOX}, nrewind=2),
+        dict(molecules=[["PV", 1], ["PA", 1]], coords={"mode": "c", "k": 2, "box": C04_BOX}, res=["RS"], nrewind=5),
+        dict(molecules=[["MX", 1]], coords={"mode": "c", "k": 2, "box": C04_BOX}, res=["RD"], nrewind=2),
+        dict(molecules=[["BR", 1]], coords={"mode": "c", "k": 2, "box": C04_BOX}, nrewind=2),
+        dict(molecules=[["B5", 2]], coords={"mode": "c", "k": 4, "box": C04_BOX}, res=["BB", "BE"], nrewind=1),
+        dict(molecules=[["Y4", 2], ["W", 1]], coords={"mode": "mc", "k": 3, "box": C04_BOX}, res=["YA"], nrewind=2),
+        dict(molecules=[["R6", 1], ["N", 1]], coords={"mode": "c", "k": 3, "box": C04_BOX}, nrewind=3),
+        dict(molecules=[["G5", 2]], coords={"mode": "c", "k": 4, "box": C04_BOX}, res=["GB", "GD"], nrewind=2),
+        dict(molecules=[["L5", 2]], coords={"mode": "mc", "k": 6, "box": C04_BOX}, res=["LC"], nrewind=2),
+        dict(molecules=[["W", 2], ["C8", 1], ["PA", 1]], coords={"mode": "c", "k": 4, "box": C04_BOX}, ign=["W"], nrewind=2),
+        dict(molecules=[["PA", 1], ["N", 1], ["C8", 1]], coords={"mode": "c", "k": 2, "box": C04_BOX}, res=["RA", "RB"], ign=["N"], nrewind=3),
+        dict(molecules=[["L4", 1], ["W", 1], ["B5", 1]], coords={"mode": "mc", "k": 5, "box": C04_BOX}, res=["LB"], nrewind=2),
+    ]
+    scheds = c04_schedules(12, 9, 12, 24)
+    for sw in sched_systems:
+        for sc in scheds:
+            for s in seeds[:3]:
+                worlds.append(dict(sw, unit="c04", seed=s, schedule=list(sc), res=sw.get("res", [])))
+    count["sched"] = len(sched_systems) * len(scheds) * 3
+    count["sched-systems"] = len(sched_systems)
+    count["scheds"] = len(scheds)
+    return worlds, count
+
+
 def run_c04(ctx, res):
     nseeds = 2 if not ctx.thorough else 8
     seeds = seeds_for(ctx, nseeds)
@@ -1084,6 +1317,21 @@ def run_c04(ctx, res):
                  f"events (event = start-point check or RandomWalk.update_positions call; a failing update runs the real loop with _is_overlap forced True) = {n_sched} worlds. "
                  "-c together with -mc is not a split (the second file re-reads from the first residue) and is exercised in C03 only")
     res.rule = ("non-trivial iff distinct, finished, and the split has >= 1 supplied and >= 1 generated residue (for scripted worlds additionally >= 1 forced failure was reached)")
+    if ctx.thorough:
+        deep_worlds, dc = c04_deep_worlds(ctx, seeds)
+        worlds += deep_worlds
+        res.bound += (f"  || THOROUGH, in addition ({len(deep_worlds)} worlds): molecule types of 2-5 residues whose residues all have different names (linear L2..L5 with 1/2/3-atom residues, "
+                      "branched B5 and star Y4, rings G5/G4; one-bead solvents W and N), so that -res expresses EVERY subset of the residues of a molecule as named for rebuilding: "
+                      f"(a) one-type systems {C04_DEEP_ONE}: every subset of the residue names x {{-c, -mc}} x every prefix length k >= 1 of the residues not named x 4 seeds = {dc['split-one']}; "
+                      f"(b) 3-4 type systems {C04_DEEP_MULTI}: (every subset of the names of one type) x (each other type: none / all of its names) x {{-c, -mc}} x every prefix length = {dc['split-multi']}; "
+                      f"(c) given / centre-only / missing in ONE run = -c AND -mc with independent prefix lengths (k, kmc), every pair, on {C04_DEEP_BOTH} x -res of <= 1 name (every subset for L5) x 2 seeds = {dc['both']}; "
+                      f"(d) -ign: type sets {C04_DEEP_IGN} in EVERY order of [molecules] (solvents x2) x every non-empty subset of the types ignored x every subset of the other types named with -res x "
+                      f"every prefix length from 'through the last ignored molecule' to 'all residues not named' x -c / -mc, + {len(C04_DEEP_IGN_REPEATED)} lists in which the ignored type occurs on several "
+                      f"[molecules] lines = {dc['ign-lists']} lists, {dc['ign']} worlds; "
+                      f"(e) scripted failures on {dc['sched-systems']} partially supplied systems (chains of 8/10, branched, star, rings, solvents around, -ign, -res of inner residues, -c and -mc, -nr 1..5) x "
+                      f"{dc['scheds']} schedules (none; every set of <= 2 failing events among the first 12; every 3 among the first 9; the first n = 4..12 events all fail; every 2nd/3rd/4th event fails, "
+                      f"each phase, up to event 24) x 3 seeds = {dc['sched']}")
+        res.rule += ("; with -c AND -mc: non-trivial iff >= 2 of {atoms only, atoms and centre, centre only, neither} occur and not only the first two")
     res.exhaustive = True
     run_worlds("c04-supplied-preserved", worlds, res)
     res.assumptions.append("supplied coordinates come from an own lattice generator (3 decimals), inside the box of the input structure")
